@@ -138,6 +138,10 @@ def judge_bg(spell_kind, fg, a_txt, text):
 
 
 def judge_case(case):
+    if case["kind"] == "chunk":
+        j = case["job"]
+        job = (j[0], j[1], j[2] if isinstance(j[2], str) else tuple(j[2]), j[3], [o if isinstance(o, str) else tuple(o) for o in j[4]], j[5])
+        return [v for v in chunk(job)[1] if v["sig"] == case.get("expect_sig", v["sig"])]
     fg = case["fg"]
     if case["kind"] == "text":
         return judge_text(case["spell"], fg, case["alpha"], case["bg"], case.get("fix", False))
@@ -155,6 +159,10 @@ def chunk(job):
             else:
                 vs = judge_bg(spell, fg, a, o)
             if vs and len(out) < 8:
+                for v in vs:
+                    v["chunk_case"] = {"kind": "chunk", "job": [kind, spell, fg if isinstance(fg, str) else list(fg), list(alphas),
+                                                              [o if isinstance(o, str) else list(o) for o in others], fix_stride],
+                                       "expect_sig": v["sig"]}
                 out += vs
     return n, out
 
